@@ -163,6 +163,9 @@ func (x *NSGen) ref(ctx, what string) *Node {
 	n := 1
 	if r.Chance(2, 5) {
 		n = r.Range(2, 3)
+		if r.Chance(1, 8) {
+			n = r.Range(2, 9)
+		}
 	}
 	pool := nsSegs
 	for i := 0; i < n; i++ {
@@ -687,6 +690,15 @@ func (x *NSGen) control(depth int) *Node {
 }
 
 // useStmt generates an import statement and updates the model.
+// segCount: how many segments a generated name gets — mostly 1..3, with a tail up to 9 (slices that grow by
+// append change capacity at 1, 2, 4, 8).
+func segCount(r *core.Rand, max int) int {
+	if r.Chance(1, 6) {
+		return r.Range(1, 9)
+	}
+	return r.Range(1, max)
+}
+
 func (x *NSGen) useStmt() *Node {
 	r := x.r()
 	typ := ""
@@ -710,7 +722,7 @@ func (x *NSGen) useStmt() *Node {
 			eff = memberType
 		}
 		var segs []string
-		for i, k := 0, r.Range(1, 3); i < k; i++ {
+		for i, k := 0, segCount(r, 3); i < k; i++ {
 			segs = append(segs, nsSegs[r.Intn(len(nsSegs))])
 		}
 		switch eff {
@@ -768,7 +780,7 @@ func (x *NSGen) useStmt() *Node {
 	if x.g.O.Fam == 7 && r.Chance(1, 3) {
 		n.Kind = "StmtGroupUseList"
 		var pfx []string
-		for i, k := 0, r.Range(1, 2); i < k; i++ {
+		for i, k := 0, segCount(r, 3); i < k; i++ {
 			pfx = append(pfx, nsSegs[r.Intn(len(nsSegs))])
 		}
 		pn := x.nameNode(0, pfx)
@@ -782,7 +794,7 @@ func (x *NSGen) useStmt() *Node {
 		n.Kids = append(n.Kids, one("Prefix", pn))
 		n.Parts = append(n.Parts, tn("\\"), t("{"))
 		var us []*Node
-		for i, k := 0, r.Range(1, 3); i < k; i++ {
+		for i, k := 0, r.Range(1, 4); i < k; i++ {
 			mt := ""
 			if typ == "" && r.Chance(1, 3) {
 				mt = r.Pick("function", "const")
@@ -828,7 +840,7 @@ func (x *NSGen) block(depth int) []*Node {
 
 func (x *NSGen) nsName() ([]string, *Node) {
 	var segs []string
-	for i, k := 0, x.r().Range(1, 3); i < k; i++ {
+	for i, k := 0, segCount(x.r(), 3); i < k; i++ {
 		segs = append(segs, nsSegs[x.r().Intn(len(nsSegs))])
 	}
 	return segs, x.nameNode(0, segs)
